@@ -56,5 +56,27 @@ def main(seed, n=None):
         if same_orders:
             print("HARNESS-ERROR: the two hash seeds give the same set iteration order")
             bad += 1
+    # whole-run determinism: same VERIF_SEED at two worker counts (different assignment of plans
+    # to interpreters, different hash seeds, different in-process histories) -> same aggregate of
+    # the comparable logs; done for several seeds
+    m = int(os.environ.get("VERIF_SELFTEST_RUN_PLANS", 400))
+    for prop in ("C13", "C15", "C16"):
+        for s in (seed, seed + 1, seed + 2):
+            aggs = []
+            for workers in (4, 16):
+                run = C.Run(prop, "quick", s, workers=workers, plans=m)
+                run.indices = list(range(m))
+                run.n_plans = m
+                out = run.run()
+                if out["errors"]:
+                    print(f"HARNESS-ERROR: {out['errors'][:2]}")
+                    bad += 1
+                aggs.append((out["cmp_aggregate"], out["plans_done"], len(out["candidates"])))
+            ok = aggs[0] == aggs[1] and aggs[0][1] == m
+            print(f"[selftest] {prop} VERIF_SEED={s}: {m} plans at 4 and 16 workers: aggregate "
+                  f"{aggs[0][0]} / {aggs[1][0]} {'equal' if ok else 'DIFFER'}", flush=True)
+            if not ok:
+                print(f"HARNESS-ERROR: run-level nondeterminism for {prop} seed {s}: {aggs}")
+                bad += 1
     print(f"[selftest] done in {time.time() - t0:.1f}s")
     return C.EXIT_HARNESS if bad else C.EXIT_OK
